@@ -3,10 +3,17 @@
    TransformModuleFilesToModel (Model/Merge.v) over the parser model, after the repairs F4, F5, F12.
    Proved here: the outcome discipline (an error list is never empty and never comes with a model, the
    schema is the requested one), conservation of types under extension, and the exact effect of a
-   conflict-free extension on its target (relations gained, attribution, nothing else touched).  The
-   "iff conflict-free" direction over arbitrary file sets is carried by the correspondence and the
-   generator's oracle (run/lib/modgen.py), not by a theorem — see DESIGN.md. *)
-From Verif Require Import Base.Str Base.Outcome Model.Ast Model.Merge Proofs.MergeProofs.
+   conflict-free extension on its target (relations gained, attribution, nothing else touched), and THE
+   EQUIVALENCE (8-10): for every list of files as the parser delivers them ([wf_modules]: distinct file names,
+   no nil metadata, no relation twice in one declaration — decidable, evaluated on every generated set),
+   merge succeeds if and only if the set is conflict-free in the order-free sense of Spec/MergeSpec.v (every
+   file parses as a module, no type and no condition defined twice, every extension has a target, no relation
+   contributed twice to a type); on success the model holds the declared types in file order, each with
+   exactly the contributed relation names, and the declared conditions attributed to their files
+   (Proofs/MergeIff.v).  The decidable form is evaluated by the extracted model on every generated module set
+   and compared with the implementation's verdict. *)
+From Coq Require Import Permutation.
+From Verif Require Import Base.Str Base.Outcome Model.Ast Model.Merge Spec.MergeSpec Proofs.MergeProofs Proofs.MergeIff Proofs.MergeCheck.
 
 Theorem C07_empty_set : forall v, merge [] v = Ok {| m_schema := v; m_types := []; m_conds := [] |}.
 Proof. reflexivity. Qed.
@@ -47,3 +54,23 @@ Theorem C07_extension_effect : forall file lines ty existing td names orig errs 
   (forall n, ~ In n names -> assoc n (td_rels orig') = assoc n (td_rels orig) /\ assoc n (td_meta_rels orig') = assoc n (td_meta_rels orig)) /\
   td_module orig' = td_module orig /\ td_file orig' = td_file orig.
 Proof. exact merge_relations_spec. Qed.
+
+(* 8. succeeds iff conflict-free, for every list of module files *)
+Theorem C07_succeeds_iff_conflict_free : forall fs v,
+  wf_modules fs -> ((exists m, merge fs v = Ok m) <-> conflict_free fs).
+Proof. exact merge_ok_iff. Qed.
+
+(* 9. on success: nothing lost, nothing invented *)
+Theorem C07_result_is_the_union : forall fs v m,
+  wf_modules fs -> merge fs v = Ok m ->
+  m_schema m = v /\ map td_name (m_types m) = map td_name (defs_of fs) /\ m_conds m = all_conds fs /\
+  forall T, Permutation (rk (m_types m) T) (contributed fs T).
+Proof. exact merge_ok_result. Qed.
+
+(* 10. the same on booleans, as evaluated against the implementation on every run *)
+Theorem C07_succeeds_iff_conflict_free_decidable : forall fs v,
+  wf_modulesb fs = true -> is_ok (merge fs v) = conflict_freeb fs.
+Proof. exact merge_ok_iff_b. Qed.
+
+Theorem C07_decidable_form_is_the_statement : forall fs, conflict_freeb fs = true <-> conflict_free fs.
+Proof. exact conflict_freeb_iff. Qed.
